@@ -25,6 +25,21 @@ from .ops import C, EMPTY_P, MatchV, R, RegexV, TV, ci_match, in_range
 from .pstate import FIELDS, G, INP, PSTATE, W1, lget, mkpair, r_mod, r_name, wf, wf_state
 
 
+_TRIVIA_HELPER: list[str] = []
+
+
+def trivia_helper_name() -> str:
+    """the module-level name of the implicit-trivia helper, read from what the real generate_parse_trivia emits"""
+    if not _TRIVIA_HELPER:
+        import re as _re
+
+        from pest.grammar.codegen.generate import generate_parse_trivia
+
+        m = _re.match(r"def (\w+)\(state", generate_parse_trivia({}))
+        _TRIVIA_HELPER.append(m.group(1) if m else "parse_trivia")
+    return _TRIVIA_HELPER[0]
+
+
 class TplFn:
     def __init__(self, kind: str, arg: Any = None):
         self.kind = kind
@@ -101,7 +116,7 @@ class TemplateMixin:
     def resolve_name(self, run: Run, name: str):
         if name.startswith("__child_"):
             return TplFn("child", int(name[len("__child_"):]))
-        if name == "parse_trivia":
+        if name == trivia_helper_name():
             return TplFn("tv")
         if name.startswith("parse_"):
             return TplFn("rule", name[len("parse_"):])
